@@ -493,7 +493,7 @@ def shard_views_case(rng, sess: Session):
         out = []
         for _ in range(n):
             serial[0] += 1
-            out.append({"id": f"s{serial[0]}", "owner": "A", "text": " ".join(rng.sample(["hello", "world", "cat", "moon", "river", "tree"], 3)) + f" {serial[0]}",
+            out.append({"id": f"s{serial[0]}", "owner": rng.choice(["A", "A", "B", "world"]), "text": " ".join(rng.sample(["hello", "world", "cat", "moon", "river", "tree"], 3)) + f" {serial[0]}",
                         "ts": "2023-0%d-1%d T00:00:00Z".replace(" ", "") % (rng.randint(1, 9), rng.randint(0, 9)), "vec": "enc", "aux": {"importance": 0.5}})
         return out
 
@@ -528,14 +528,23 @@ def shard_views_case(rng, sess: Session):
         K_ = rng.choice([1, 2, 4, 6])
         tiers_ = rng.choice([["cluster_semantic", "archive"], ["archive", "cluster_semantic"], ["archive"], ["cluster_semantic"]])
         top_m = rng.choice([1, 2, 3])
+        owner_ = rng.choice([None, None, "A", "B"])
         for v in views:
-            got_t = collect_shard_hits(v, tiers_, None, q, K_, iso_from_ms(NOW_MS), -1.0, top_m)
+            got_t = collect_shard_hits(v, tiers_, owner_, q, K_, iso_from_ms(NOW_MS), -1.0, top_m)
+            # a shard's hits come from its own slice of the index (and from the asked owner)
+            own_ = {str(e.get("id")): e.get("owner") for e in (v._eps if v is idx else v._episodes)}
+            for t_ in tiers_:
+                for h in got_t.get(t_, []):
+                    sess.count("shard_hits_checked_against_their_slice")
+                    if h["id"] not in own_ or (owner_ is not None and own_[h["id"]] != owner_):
+                        sess.violation("shard-hit-not-from-its-own-slice-or-owner", case, {"tier": t_, "owner": owner_, "hit": h["id"], "slice": sorted(own_)[:6]})
+                        return
             for t_ in tiers_:
                 hints = {"sim_threshold": -1.0, "now": iso_from_ms(NOW_MS)}
                 if t_ == "cluster_semantic":
                     hints["clusters_top_m"] = top_m
                 try:
-                    want_t = [str(h.id) for h in v.search_tiered(owner=None, q_vec=q, k=K_, tier=t_, hints=hints)]
+                    want_t = [str(h.id) for h in v.search_tiered(owner=owner_, q_vec=q, k=K_, tier=t_, hints=hints)]
                 except Exception:
                     want_t = []
                 sess.count("shard_tier_collections_checked")
